@@ -23,7 +23,9 @@ pub struct Obs {
 
 impl Obs {
     pub fn fail(&mut self, prop: &'static str, sig: &str, detail: Value) {
-        if self.findings.len() < 64 {
+        // cap per signature, so a flood of one kind cannot crowd out another property's finding
+        let same = self.findings.iter().filter(|f| f.prop == prop && f.sig == sig).count();
+        if same < 3 && self.findings.len() < 256 {
             self.findings.push(Finding { prop, sig: sig.into(), detail });
         }
     }
